@@ -102,6 +102,8 @@ def oracle(p):
                 want = [[0, op[1], op[2], 1 if op[3] else 0, [op[4]] if op[4] is not None else []]]
             elif k == 'EndStream':
                 want = [[0, op[1], 0, 1, []]]
+            if want is not None and isinstance(want[0][1], int) and want[0][0] in (0, 3, 8):
+                want[0][1] %= 2 ** 31      # the 31-bit stream id field (ids above 2^31-1 are accepted by the API: F-C09-1, judged there)
             if want is not None and [list(map(lambda x: list(x) if isinstance(x, (list, tuple, bytes)) else x, fr)) for fr in new] != want:
                 V('a successful call did not append exactly the frame it specifies', {'op': k, 'expected': want, 'appended': new})
         prev = parts
